@@ -157,7 +157,7 @@ SEGMENTS = [
     "a.liquid", "a", "b", "sub", "deep", "c.liquid", "b.liquid", "..", ".", "", "outside", "link_out.liquid", "link_out",
     "link_dir", "link_in.liquid", "link_sibling.liquid", "secret.liquid", "secret", "é.liquid", "é", "with space.liquid", "d.txt", "e",
     "a\x00b", "a\nb", "\x7f", "x" * 300, "y" * 300 + ".liquid", "~", "C:", "private.liquid", "__init__.py", "templates",
-    "root", "only2.liquid", "*", "a.liquid\x00.txt",
+    "root", "only2.liquid", "*", "a.liquid\x00.txt", "root2", "root2", "outside",
 ]
 PREFIXES = ["", "", "", "", "/", "$OUT/", "$ROOT/", "$BASE/", "//", "./", "../", "../../", "$BASE/outside/../outside/", "..\\", "..\\..\\", "\\", "$BOUT\\", "$BPKG\\", "..\\outside\\", "..\\..\\outside\\"]
 CONFIGS = [
@@ -170,6 +170,7 @@ FIXED_NAMES = [
     "link_out", "link_dir/secret.liquid", "link_in.liquid", "link_sibling.liquid", "sub/../a.liquid", "sub/../../outside/secret", "./a.liquid", "a.liquid/",
     "", ".", "..", "/", "a\x00b", "x" * 300, "sub/" + "y" * 300 + ".liquid", "$ROOT/a.liquid", "../private.liquid", "$BASE/outside/a.liquid",
     "é.liquid", "é", "with space.liquid", "only2.liquid", "missing", "missing.liquid", "/etc/passwd", "../../../../../../etc/passwd",
+    "../root2/only2.liquid", "sub/../../root2/only2.liquid", "../root2/only2", "../root2/a.liquid", "../outside/../root2/only2.liquid",
     "..\\private.liquid", "sub\\..\\..\\private.liquid", "..\\..\\outside\\secret.liquid", "$BOUT\\secret.liquid", "sub\\b.liquid", "..\\outside\\secret",
 ]
 
@@ -207,7 +208,8 @@ def finish_kwargs(ctx: core.Ctx, tier: str) -> dict:
             "300-character names) joined by '/' (12%: by a backslash, which is an ordinary file-name character on this "
             "platform), with relative/absolute prefixes (also spelled with backslashes) and suffixes, plus 39 fixed hostile "
             f"names, against {len(CONFIGS)} loader configurations (FileSystemLoader with/without ext, reject_symlinks, "
-            "two search paths; CachingFileSystemLoader; PackageLoader), each synchronously and asynchronously. A "
+            "two search paths; CachingFileSystemLoader; PackageLoader; the tree has a sibling directory whose name starts "
+            "with the search directory's name), each synchronously and asynchronously. A "
             "result must be TemplateNotFoundError or a template whose path is lexically (and with reject_symlinks "
             "really) inside a search directory and whose text is that file's content. Non-trivial = the name has "
             "'..', an absolute prefix, a symlink component, a control character or is longer than 255 characters."
